@@ -87,3 +87,14 @@ contract("parse:Parser._decode_string_literal",
     props=["C09", "C13"],
     note="a single-quoted literal is first rewritten to the double-quoted spelling (str.replace is an uninterpreted builtin shared with the "
          "contract), then decoded")
+
+contract("serialize:canonical_string", trusted=True,
+    requires=["is_str(value)"], defines=["result == canonical(str_of(value))"], ensures=["is_str(result)"], raises=[], props=["C08", "C12"],
+    note="json.dumps-based quoting (external): the result is named canonical(value); its text is decided by the bounded C08/C12 runs")
+
+contract("node:JSONPathNode.path",
+    requires=["isinstance(self, JSONPathNode)", "is_tuple(self.location)", "all(is_str(p) or is_int(p) for p in seq(self.location))"],
+    ensures=["result == '$' + ''.join(map_path_piece(seq(self.location), len(self.location)))"],
+    comps={1: "path_piece(p)"}, hide=["path_piece"], unfold=["path_piece"],
+    raises=[], props=["C08", "C13"],
+    note="a normalized path is '$' followed by one bracketed step per location component, names in canonical spelling")
